@@ -126,6 +126,9 @@ func build(id string, r run, work string) (bin string, skipped []string) {
 		os.WriteFile(ovPath, js, 0o644)
 		tags := append([]string{"verif"}, r.Tags...)
 		args := []string{"build", "-tags", strings.Join(tags, ","), "-overlay", ovPath, "-o", bin}
+		if os.Getenv("VERIF_COVER") != "" { // development aid: statement coverage of the library by a check (GOCOVERDIR must be set)
+			args = append(args, "-cover", "-coverpkg=gitlab.com/yawning/secp256k1-voi/...")
+		}
 		if r.Race {
 			args = append(args, "-race")
 		}
